@@ -381,6 +381,10 @@ func precedentCorrect(e *Equation) *Equation {
 	if e.right == nil || e.right.o == nil {
 		return e
 	}
+	if e.o.code == match.code || e.o.code == search.code { // the right side is an argument, not an operand
+		e.right = precedentCorrect(e.right)
+		return e
+	}
 	if e.o.prec <= e.right.o.prec {
 		r := e.right
 		e.right = r.left
